@@ -15,6 +15,8 @@ import (
 
 func (u *Unit) NoteList() []string { return sortedKeys(u.Notes) }
 
+func HasProp(props []string, p string) bool { return hasProp(props, p) }
+
 func hasProp(props []string, p string) bool {
 	if p == "" {
 		return true
@@ -168,7 +170,11 @@ func CheckMain(args []string) int {
 		if len(u.Undecided) > 0 {
 			continue
 		}
-		obls = append(obls, u.Obls...)
+		for _, o := range u.Obls {
+			if hasProp(o.Props, *prop) || o.Cover {
+				obls = append(obls, o)
+			}
+		}
 		fuc = append(fuc, u.Name)
 		for n := range u.Notes {
 			notes[n] = true
